@@ -217,6 +217,7 @@ func verif_C15_rehello() {
 	first := "220 srv ready\r\n250-srv\r\n250-8BITMIME\r\n250-SIZE 1000\r\n250-REQUIRETLS\r\n250-SMTPUTF8\r\n250 DSN\r\n"
 	has := map[string]bool{}
 	var adv []string
+	fallback := false
 	for _, n := range names {
 		if nondetBool() {
 			has[n] = true
@@ -224,7 +225,12 @@ func verif_C15_rehello() {
 		}
 	}
 	second := ""
-	if len(adv) == 0 {
+	if len(adv) == 0 && nondetBool() {
+		// the second EHLO is refused (500 / 502) and the HELO the client falls
+		// back to is accepted: the most recent greeting offers nothing
+		second = []string{"500 5.5.1 what\r\n", "502 5.5.1 no\r\n"}[verifChoice(2)] + "250 srv\r\n"
+		fallback = true
+	} else if len(adv) == 0 {
 		second = "250 srv\r\n"
 	} else {
 		second = "250-srv\r\n"
@@ -259,11 +265,15 @@ func verif_C15_rehello() {
 		return
 	}
 	verifReach("C15.rehello-mail-line")
-	verifAssert(err == nil && len(lines) == 2 && strings.HasPrefix(lines[0], "EHLO ") && strings.HasPrefix(lines[1], "MAIL FROM:<a@b>"), "C15.rehello-greets-then-mail")
-	if len(lines) != 2 {
+	nl := 2
+	if fallback {
+		nl = 3 // EHLO, HELO, MAIL
+	}
+	verifAssert(err == nil && len(lines) == nl && strings.HasPrefix(lines[0], "EHLO ") && strings.HasPrefix(lines[nl-1], "MAIL FROM:<a@b>"), "C15.rehello-greets-then-mail")
+	if len(lines) != nl {
 		return
 	}
-	line := lines[1]
+	line := lines[nl-1]
 	verifAssert(strings.Contains(line, " BODY=") == has["8BITMIME"], "C15.rehello-body-iff-advertised-now")
 	verifAssert(strings.Contains(line, " SIZE=") == has["SIZE"], "C15.rehello-size-iff-advertised-now")
 	verifAssert(strings.Contains(line, " REQUIRETLS") == (has["REQUIRETLS"] && opts.RequireTLS), "C15.rehello-requiretls-iff-advertised-now")
